@@ -15,6 +15,7 @@ import (
 	"sort"
 	"strconv"
 	"strings"
+	"sync"
 	"time"
 
 	"github.com/xujiajun/nutsdb"
@@ -40,6 +41,8 @@ type St struct {
 	comment bool   // emit trace lines as comments (not replayed by the model)
 	txActive bool  // a transaction holds the database lock
 	datEnd   int64 // end of the last data-file write (-1: unknown), for exact-fill entries
+	intern  map[string][]byte // argument buffers of this history: one slice (with spare capacity) per distinct byte string
+	lastOpenErr string
 	faultOp string // op of the event at which the injected fault fired
 	datWrites int  // complete data-file writes observed since the fault was armed
 }
@@ -69,6 +72,25 @@ func (s *St) reset() {
 	s.db = nil
 	s.keys = map[string]bool{}
 	s.events = nil
+	s.intern = map[string][]byte{}
+}
+
+// arg returns the caller-side buffer for a byte-string argument.  Like an application that keeps
+// its keys in reusable buffers, the harness passes the SAME slice, with spare capacity behind it,
+// every time a byte string recurs in a history: an API call that appends to or stores into its
+// argument then corrupts a later (or an earlier, still pending) call.
+func (s *St) arg(h string) []byte {
+	if s.intern == nil {
+		s.intern = map[string][]byte{}
+	}
+	if b, ok := s.intern[h]; ok {
+		return b
+	}
+	raw := unhx(h)
+	buf := make([]byte, len(raw), len(raw)+24)
+	copy(buf, raw)
+	s.intern[h] = buf
+	return buf
 }
 
 func (s *St) closeQuiet() {
@@ -283,7 +305,9 @@ func (s *St) exec(call string) (rcall string, res string) {
 		s.opt = nutsdb.Options{Dir: s.dir, EntryIdxMode: nutsdb.EntryIdxMode(atoi(a[0])), RWMode: nutsdb.RWMode(atoi(a[1])),
 			StartFileLoadingMode: nutsdb.RWMode(atoi(a[2])), SyncEnable: atob(a[3]), SegmentSize: int64(atoi(a[4])), NodeNum: 1}
 		db, err := nutsdb.Open(s.opt)
+		s.lastOpenErr = ""
 		if err != nil {
+			s.lastOpenErr = err.Error()
 			if os.Getenv("VERIF_DEBUG") != "" {
 				fmt.Fprintf(os.Stderr, "open error: %v\n", err)
 			}
@@ -388,7 +412,7 @@ func (s *St) exec(call string) (rcall string, res string) {
 	if tx == nil {
 		return call, "err"
 	}
-	B := func(i int) []byte { return unhx(a[i]) }
+	B := func(i int) []byte { return s.arg(a[i]) }
 	S := func(i int) string { return string(unhx(a[i])) }
 	I := func(i int) int { return atoi(a[i]) }
 	switch cmd {
@@ -692,7 +716,9 @@ func (s *St) run(call string) string {
 	if nl := s.nowLine(); nl != "" && !s.quiet && !s.comment {
 		emit("%s = -", nl)
 	}
+	watchStart(call)
 	rc, res := s.exec(call)
+	watchStop()
 	if s.quiet {
 		return res
 	}
@@ -702,4 +728,42 @@ func (s *St) run(call string) string {
 	}
 	emit("%s = %s", rc, res)
 	return res
+}
+
+
+// ---- watchdog: an API call that does not return (endless loop, self-deadlock) ends the run with a
+// failing-input line instead of hanging the check ----
+var (
+	watchMu   sync.Mutex
+	watchCall string
+	watchAt   time.Time
+	watchOn   bool
+)
+
+func watchStart(call string) {
+	watchMu.Lock()
+	watchCall, watchAt = call, time.Now()
+	if !watchOn {
+		watchOn = true
+		go func() {
+			for {
+				time.Sleep(time.Second)
+				watchMu.Lock()
+				c, at := watchCall, watchAt
+				watchMu.Unlock()
+				if c != "" && time.Since(at) > 45*time.Second {
+					emit("#SPEC the call %q did not return within 45 s (endless loop or deadlock inside the library)", c)
+					out.Flush()
+					os.Exit(0)
+				}
+			}
+		}()
+	}
+	watchMu.Unlock()
+}
+
+func watchStop() {
+	watchMu.Lock()
+	watchCall = ""
+	watchMu.Unlock()
 }
